@@ -47,7 +47,7 @@ TRUSTED_BASE = [
     "statements in lean/Properties/C05.lean say what the index/sign/factor clauses of the property say",
     "lean/PulserModel/Hamiltonian.lean corresponds to /repo (checked numerically on generated programs, not proved)",
     "reference renderer in harness/props/C05.py (reads seq._schedule, Pulse waveform .samples, DetuningMap traps)",
-    "numpy / qutip leaf functions (Qobj.full, waveform samples), C6_coeffs.json read by the harness itself",
+    "numpy / qutip leaf functions (Qobj.full, waveform samples); scheduler slots (C02/C03/C07), EOM detuning_off (C15), calibrated-layout trap coordinates (C19) are read from the real objects; C6 per level is the harness own copy of the published table; atom order, coordinates, C3, field, SLM targets, DMM weights, channel basis/addressing, EOM open/closed come from the program text",
     "Float evaluation: the Lean theorems are over an ideal commutative ring; float64 equality is validated to rel. 1e-9 only",
 ]
 
@@ -1202,15 +1202,16 @@ def check(tier: str, seed: int) -> int:
         distinct.add(canon)
         if r.nontrivial:
             nontrivial.add(canon)
-        hist["atoms"][info.n] += 1
-        hist["eigenbasis"]["".join(info.eigenbasis)] += 1
-        hist["dim"][info.d ** info.n] += 1
-        hist["level"][info.level] += 1
+        if info is not None:
+            hist["atoms"][info.n] += 1
+            hist["eigenbasis"]["".join(info.eigenbasis)] += 1
+            hist["dim"][info.d ** info.n] += 1
+            hist["level"][info.level] += 1
         for o in r.ops:
             hist["ops"][o["k"]] += 1
         for f in features({**case, "ops": r.ops}, info):
             hist["feature"][f] += 1
-        if len(samples) < 3 and info.n >= 2 and len(r.ops) >= 5:
+        if info is not None and len(samples) < 3 and info.n >= 2 and len(r.ops) >= 5:
             samples.append(dict(origin=origin, case={**case, "ops": r.ops}, duration=info.T,
                                 eigenbasis=info.eigenbasis))
         for f in r.fails:
